@@ -26,6 +26,8 @@ const (
 	Wide  = "wide"   // comparable struct of 96 bytes (> 64) holding strings and an array
 	Ptr   = "ptr"    // *Cell: every Make returns a NEW pointer; pointees of equal V are deeply equal
 	Bytes = "bytes"  // []byte (not comparable): only for APIs whose element constraint is any
+	Any   = "any"    // interface type any holding a *Cell: == is pointer identity, reflect.DeepEqual is not
+	F64   = "f64"    // float64 holding an integer of magnitude < 2^53; cannot carry an ID
 )
 
 // Kit converts between (V, ID) pairs and the element type T.
@@ -207,8 +209,35 @@ func BytesKit() Kit[[]byte] {
 	})
 }
 
+// AnyKit: T = any, every element a freshly allocated *Cell (see PtrKit).
+func AnyKit() Kit[any] {
+	pk := PtrKit()
+	return finish(Kit[any]{Kind: Any, HasID: true,
+		Make: func(v, id int) any { return pk.Make(v, id) },
+		V:    func(x any) int { return pk.V(x.(*Cell)) },
+		ID:   func(x any) int { return pk.ID(x.(*Cell)) },
+		Same: func(a, b any) bool { return a == b },
+	})
+}
+
+// F64Kit: T = float64.  V of magnitude 2^53 or more panics (a harness error).
+func F64Kit() Kit[float64] {
+	return finish(Kit[float64]{Kind: F64,
+		Make: func(v, _ int) float64 {
+			if v <= -1<<53 || v >= 1<<53 {
+				panic(fmt.Sprintf("harness error: value %d is not exactly representable in the f64 element kind", v))
+			}
+			return float64(v)
+		},
+		V:    func(x float64) int { return int(x) },
+		ID:   func(float64) int { return 0 },
+		Same: func(a, b float64) bool { return a == b },
+	})
+}
+
 // Kinds lists the kind names for generators: the comparable ones, and all.
 var (
-	Comparable = []string{Int, Str, I16, Wide, Ptr}
-	All        = []string{Int, Str, I16, Wide, Ptr, Bytes}
+	Comparable = []string{Int, Str, I16, Wide, Ptr, Any, F64}
+	Ordered    = []string{Int, Str, I16, F64}
+	All        = []string{Int, Str, I16, Wide, Ptr, Any, F64, Bytes}
 )
